@@ -493,89 +493,137 @@ Proof.
   destruct (p <? o_prec q); [|reflexivity]. cbn [brackets_of]. apply IH.
 Qed.
 
-Lemma step_close_brackets b opt S R S' R' :
-  step (TClose b opt) S R = Ok (S', R') -> brackets_of S = b :: brackets_of S'.
+(* the sentinel `(` stays at the bottom of the stack *)
+Lemma close_pop_bottom b : forall S0 R S1 R1,
+  close_pop b (S0 ++ [SOpen BParen]) R = Ok (S1, R1) ->
+  (brackets_of S0 = [] /\ b = BParen /\ S1 = []) \/
+  (exists S0', S1 = S0' ++ [SOpen BParen] /\ brackets_of S0 = b :: brackets_of S0').
+Proof.
+  induction S0 as [|[q|b'] S0 IH]; intros R S1 R1 H; cbn [app close_pop] in H.
+  - destruct (br_eqb BParen b) eqn:E; [|discriminate].
+    apply br_eqb_eq in E. injection H as <- _. left. repeat split. symmetry. exact E.
+  - cbn [brackets_of]. eapply IH. exact H.
+  - destruct (br_eqb b' b) eqn:E; [|discriminate].
+    apply br_eqb_eq in E. subst b'. injection H as <- _.
+    right. exists S0. split; reflexivity.
+Qed.
+
+Lemma step_close_bottom b opt S0 R S' R' :
+  step (TClose b opt) (S0 ++ [SOpen BParen]) R = Ok (S', R') ->
+  (brackets_of S0 = [] /\ b = BParen /\ S' = []) \/
+  (exists S0', S' = S0' ++ [SOpen BParen] /\ brackets_of S0 = b :: brackets_of S0').
 Proof.
   intro H.
-  assert (Hgen : forall S1 R1, close_pop b S R = Ok (S1, R1) ->
-            (S' = S1 \/ exists q, S1 = SOp q :: S') -> brackets_of S = b :: brackets_of S').
-  { intros S1 R1 Hc [->|[q ->]]; apply close_pop_brackets in Hc; exact Hc. }
+  assert (Hgen : forall S1 R1, close_pop b (S0 ++ [SOpen BParen]) R = Ok (S1, R1) -> b <> BParen ->
+            (S' = S1 \/ exists q, S1 = SOp q :: S') ->
+            exists S0', S' = S0' ++ [SOpen BParen] /\ brackets_of S0 = b :: brackets_of S0').
+  { intros S1 R1 Hc Hb Hs. apply close_pop_bottom in Hc as [(_ & Hb' & _)|(S0' & -> & Hbr)]; [contradiction|].
+    destruct Hs as [->|[q Hq]].
+    - exists S0'. split; [reflexivity | exact Hbr].
+    - destruct S0' as [|x S0'']; cbn [app] in Hq; [discriminate|].
+      injection Hq as -> <-. exists S0''. split; [reflexivity | exact Hbr]. }
   destruct b; cbn [step] in H.
-  - destruct (close_pop BParen S R) as [[S1 R1]|e] eqn:Hc; [|discriminate].
-    injection H as <- _. eapply Hgen; [reflexivity | left; reflexivity].
-  - destruct (close_pop BCollect S R) as [[S1 R1]|e] eqn:Hc; [|discriminate].
+  - apply close_pop_bottom in H. exact H.
+  - right. destruct (close_pop BCollect (S0 ++ [SOpen BParen]) R) as [[S1 R1]|e] eqn:Hc; [|discriminate].
     destruct S1 as [|[q|b1] S2].
-    + injection H as <- _. eapply Hgen; [reflexivity | left; reflexivity].
-    + destruct (is_ta q); injection H as <- _; (eapply Hgen; [reflexivity|]);
+    + injection H as <- _. eapply Hgen; [reflexivity | discriminate | left; reflexivity].
+    + destruct (is_ta q); injection H as <- _; (eapply Hgen; [reflexivity | discriminate |]);
         [right; exists q; reflexivity | left; reflexivity].
-    + injection H as <- _. eapply Hgen; [reflexivity | left; reflexivity].
-  - destruct (close_pop BObject S R) as [[S1 R1]|e] eqn:Hc; [|discriminate].
+    + injection H as <- _. eapply Hgen; [reflexivity | discriminate | left; reflexivity].
+  - right. destruct (close_pop BObject (S0 ++ [SOpen BParen]) R) as [[S1 R1]|e] eqn:Hc; [|discriminate].
     destruct S1 as [|[q|b1] S2].
-    + injection H as <- _. eapply Hgen; [reflexivity | left; reflexivity].
-    + destruct (is_ta q); injection H as <- _; (eapply Hgen; [reflexivity|]);
+    + injection H as <- _. eapply Hgen; [reflexivity | discriminate | left; reflexivity].
+    + destruct (is_ta q); injection H as <- _; (eapply Hgen; [reflexivity | discriminate |]);
         [right; exists q; reflexivity | left; reflexivity].
-    + injection H as <- _. eapply Hgen; [reflexivity | left; reflexivity].
+    + injection H as <- _. eapply Hgen; [reflexivity | discriminate | left; reflexivity].
 Qed.
 
-Lemma run_brackets ts : forall S R st r,
-  brackets_of S = st ++ [BParen] ->
-  run (ts ++ [TClose BParen false]) S R = Ok ([], r) ->
-  bmatch st ts = true \/
-  exists pre post opt, ts = pre ++ TClose BParen opt :: post /\ bmatch st pre = true.
+Lemma prec_pop_bottom p : forall S0 R, exists S0' R',
+  prec_pop p (S0 ++ [SOpen BParen]) R = (S0' ++ [SOpen BParen], R') /\ brackets_of S0' = brackets_of S0.
 Proof.
-  induction ts as [|t ts IH]; intros S R st r Hb Hrun.
-  - left. cbn [app] in Hrun. rewrite run_cons in Hrun.
-    destruct (step (TClose BParen false) S R) as [[S' R']|e] eqn:Hs; [|discriminate].
-    cbn [run] in Hrun. injection Hrun as -> _.
-    apply step_close_brackets in Hs. cbn [brackets_of] in Hs. rewrite Hb in Hs.
-    destruct st as [|b st]; [reflexivity|].
-    cbn [app] in Hs. injection Hs as _ Hs. destruct st; discriminate.
+  induction S0 as [|[q|b] S0 IH]; intro R; cbn [app prec_pop].
+  - exists [], R. split; reflexivity.
+  - destruct (p <? o_prec q).
+    + destruct (IH (R ++ [q])) as (S0' & R' & H1 & H2). exists S0', R'. split; [exact H1 | exact H2].
+    + exists (SOp q :: S0), R. split; reflexivity.
+  - exists (SOpen b :: S0), R. split; reflexivity.
+Qed.
+
+Lemma run_brackets ts : forall S0 R pe pp r,
+  run (ts ++ [TClose BParen false]) pe pp (S0 ++ [SOpen BParen]) R = Ok ([], r) ->
+  bmatch (brackets_of S0) ts = true.
+Proof.
+  induction ts as [|t ts IH]; intros S0 R pe pp r Hrun.
   - cbn [app] in Hrun. rewrite run_cons in Hrun.
-    destruct (step t S R) as [[S' R']|e] eqn:Hs; [|discriminate].
+    destruct (adjacency_error pe pp (TClose BParen false)); [discriminate|].
+    destruct (step (TClose BParen false) (S0 ++ [SOpen BParen]) R) as [[S' R']|e] eqn:Hs; [|discriminate].
+    cbn [outer_closed] in Hrun.
+    apply step_close_bottom in Hs as [(Hb & _ & ->)|(S0' & -> & Hb)].
+    + rewrite Hb. reflexivity.
+    + destruct S0'; cbn [app run] in Hrun; discriminate.
+  - cbn [app] in Hrun. rewrite run_cons in Hrun.
+    destruct (adjacency_error pe pp t); [discriminate|].
+    destruct (step t (S0 ++ [SOpen BParen]) R) as [[S' R']|e] eqn:Hs; [|discriminate].
     destruct t as [o|b|b opt].
-    + (* operation *)
-      cbn [step] in Hs. destruct (prec_pop (o_prec o) S R) as [S1 R1] eqn:Hp.
-      injection Hs as <- <-.
-      assert (Hb' : brackets_of (SOp o :: S1) = st ++ [BParen]).
-      { cbn [brackets_of]. rewrite <- Hb. pose proof (prec_pop_brackets (o_prec o) S R) as Hpb.
-        rewrite Hp in Hpb. exact Hpb. }
-      destruct (IH _ _ _ _ Hb' Hrun) as [Hm|(pre & post & opt & -> & Hm)].
-      * left. exact Hm.
-      * right. exists (TOp o :: pre), post, opt. split; [reflexivity | exact Hm].
-    + (* open *)
-      cbn [step] in Hs. injection Hs as <- <-.
-      assert (Hb' : brackets_of (SOpen b :: S) = (b :: st) ++ [BParen]).
-      { cbn [brackets_of app]. rewrite Hb. reflexivity. }
-      destruct (IH _ _ _ _ Hb' Hrun) as [Hm|(pre & post & opt & -> & Hm)].
-      * left. exact Hm.
-      * right. exists (TOpen b :: pre), post, opt. split; [reflexivity | exact Hm].
-    + (* close *)
-      apply step_close_brackets in Hs. rewrite Hb in Hs.
-      destruct st as [|b' st].
-      * cbn [app] in Hs. injection Hs as <- Hs.
-        right. exists [], ts, opt. split; reflexivity.
-      * cbn [app] in Hs. injection Hs as <- Hs. symmetry in Hs.
-        destruct (IH _ _ _ _ Hs Hrun) as [Hm|(pre & post & opt' & -> & Hm)].
-        -- left. cbn [bmatch]. rewrite Hm. rewrite (proj2 (br_eqb_eq b' b') eq_refl). reflexivity.
-        -- right. exists (TClose b' opt :: pre), post, opt'. split; [reflexivity|].
-           cbn [bmatch]. rewrite Hm. rewrite (proj2 (br_eqb_eq b' b') eq_refl). reflexivity.
+    + cbn [step] in Hs.
+      destruct (prec_pop_bottom (o_prec o) S0 R) as (S0' & R1 & Hp & Hb).
+      rewrite Hp in Hs. injection Hs as <- <-. cbn [outer_closed] in Hrun.
+      change (SOp o :: S0' ++ [SOpen BParen]) with ((SOp o :: S0') ++ [SOpen BParen]) in Hrun.
+      apply IH in Hrun. cbn [brackets_of] in Hrun. rewrite Hb in Hrun. exact Hrun.
+    + cbn [step] in Hs. injection Hs as <- <-. cbn [outer_closed] in Hrun.
+      change (SOpen b :: S0 ++ [SOpen BParen]) with ((SOpen b :: S0) ++ [SOpen BParen]) in Hrun.
+      apply IH in Hrun. exact Hrun.
+    + apply step_close_bottom in Hs as [(Hb & -> & ->)|(S0' & -> & Hb)].
+      * exfalso. cbn [outer_closed] in Hrun. destruct (ts ++ [TClose BParen false]) eqn:E.
+        -- apply app_eq_nil in E as [_ E]. discriminate.
+        -- discriminate.
+      * assert (Hoc : outer_closed (TClose b opt) (S0' ++ [SOpen BParen]) (ts ++ [TClose BParen false]) = false).
+        { destruct b; try reflexivity. destruct S0'; reflexivity. }
+        rewrite Hoc in Hrun. apply IH in Hrun.
+        rewrite Hb. cbn [bmatch]. rewrite Hrun. rewrite (proj2 (br_eqb_eq b b) eq_refl). reflexivity.
 Qed.
 
-Lemma convert_ok_brackets ts r :
-  convert_to_postfix ts = Ok r -> balanced ts \/ escapes_outer ts.
+Lemma convert_ok_balanced ts r : convert_to_postfix ts = Ok r -> balanced ts.
 Proof.
-  unfold convert_to_postfix, balanced, escapes_outer. intro H.
-  destruct (run (ts ++ [TClose BParen false]) [SOpen BParen] []) as [[S R]|e] eqn:Hr; [|discriminate].
+  unfold convert_to_postfix, balanced. intro H.
+  destruct (run (ts ++ [TClose BParen false]) false false [SOpen BParen] []) as [[S R]|e] eqn:Hr; [|discriminate].
   destruct S as [|x S]; [|discriminate].
-  exact (run_brackets ts [SOpen BParen] [] [] R eq_refl Hr).
+  exact (run_brackets ts [] [] false false R Hr).
 Qed.
 
-Lemma unbalanced_rejected ts :
-  ~ balanced ts -> ~ escapes_outer ts -> exists e, parse ts = Err e.
+Lemma unbalanced_rejected ts : ~ balanced ts -> exists e, parse ts = Err e.
 Proof.
-  intros Hnb Hne. unfold parse.
+  intro Hnb. unfold parse.
   destruct (convert_to_postfix ts) as [r|e] eqn:Hc.
-  - exfalso. destruct (convert_ok_brackets ts r Hc); contradiction.
+  - exfalso. apply Hnb. eapply convert_ok_balanced. exact Hc.
+  - exists e. reflexivity.
+Qed.
+
+(* ------------------------------------------------------------------ *)
+(* (d) operand juxtaposition                                            *)
+(* ------------------------------------------------------------------ *)
+Lemma run_adjacent ts : forall pe pp S R x, run ts pe pp S R = Ok x -> adjacent_ok pe pp ts = true.
+Proof.
+  induction ts as [|t ts IH]; intros pe pp S R x H; [reflexivity|].
+  rewrite run_cons in H. cbn [adjacent_ok].
+  destruct (adjacency_error pe pp t); [discriminate|].
+  destruct (step t S R) as [[S' R']|e]; [|discriminate].
+  destruct (outer_closed t S' ts); [discriminate|].
+  cbn [negb andb]. eapply IH. exact H.
+Qed.
+
+Lemma adjacent_ok_app l1 : forall l2 pe pp, adjacent_ok pe pp (l1 ++ l2) = true -> adjacent_ok pe pp l1 = true.
+Proof.
+  induction l1 as [|t l1 IH]; intros l2 pe pp H; [reflexivity|].
+  cbn [app adjacent_ok] in *. apply andb_true_iff in H as [H1 H2].
+  rewrite H1. cbn [andb]. eapply IH. exact H2.
+Qed.
+
+Lemma juxtaposition_rejected ts : ~ no_juxtaposition ts -> exists e, parse ts = Err e.
+Proof.
+  unfold no_juxtaposition, parse, convert_to_postfix. intro Hn.
+  destruct (run (ts ++ [TClose BParen false]) false false [SOpen BParen] []) as [[S R]|e] eqn:Hr.
+  - exfalso. apply Hn. apply run_adjacent in Hr. eapply adjacent_ok_app. exact Hr.
   - exists e. reflexivity.
 Qed.
 
@@ -598,45 +646,33 @@ Definition w_len : op := table_op "lengthOpType" [].
 Definition w_select : op := table_op "selectOpType" [].
 Definition w_ta : op := table_op "traverseArrayOpType" [].
 
-(* `1 ) ( | 2` : brackets not balanced, accepted, tree of `1 | 2` *)
+(* `1 ) ( | 2` and `)(` : rejected (were accepted before fix 673c42d) *)
 Definition w_close_open : list tok :=
   [TOp w_one; TClose BParen false; TOpen BParen; TOp w_pipe; TOp w_two].
 
-Lemma close_open_accepted :
-  ~ balanced w_close_open /\
-  parse w_close_open = Ok (Some (Node w_pipe (Some (Node w_one None None)) (Some (Node w_two None None)))).
-Proof. split; [vm_compute; discriminate | vm_compute; reflexivity]. Qed.
-
-(* `)(` : accepted as the empty expression *)
-Lemma close_open_empty_accepted :
-  ~ balanced [TClose BParen false; TOpen BParen] /\ parse [TClose BParen false; TOpen BParen] = Ok None.
-Proof. split; [vm_compute; discriminate | vm_compute; reflexivity]. Qed.
-
-(* `1 2 +` : the infix operator is the last token, accepted as 2 + 1 *)
-Lemma postfix_order_accepted :
-  o_nargs w_add = 2 /\
-  parse ([TOp w_one; TOp w_two] ++ [TOp w_add]) =
-    Ok (Some (Node w_add (Some (Node w_two None None)) (Some (Node w_one None None)))).
+Lemma close_open_rejected :
+  parse w_close_open = Err (ENoOpen BParen) /\
+  parse [TClose BParen false; TOpen BParen] = Err (ENoOpen BParen).
 Proof. split; vm_compute; reflexivity. Qed.
 
-(* `. | min == 1` : by the specified relation min is an operand and needs no
-   parentheses; with the table's number it is parsed as (. == 1) | min *)
+(* `1 2 +`, `+ 1 2`, `1 + select 2` : rejected (were accepted before fix 665c233) *)
+Lemma postfix_order_rejected :
+  parse [TOp w_one; TOp w_two; TOp w_add] = Err EBadExpr /\
+  parse [TOp w_add; TOp w_one; TOp w_two] = Err EBadExpr /\
+  parse [TOp w_one; TOp w_add; TOp w_select; TOp w_two] = Err EBadExpr.
+Proof. repeat split; vm_compute; reflexivity. Qed.
+
+(* `. | min == 1` : min is an operand like any other (Precedence 50 since fix ddd7f9c) *)
 Definition w_minmax_term : term :=
   TBin w_pipe (TLeaf w_self) (TBin w_eq (TLeaf w_min) (TLeaf w_one)).
 Definition w_minmax_flat : list tok :=
   [TOp w_self; TOp w_pipe; TOp w_min; TOp w_eq; TOp w_one].
 
-Lemma minmax_misparsed :
+Lemma minmax_parsed :
   wf_termb w_minmax_term = true /\
-  parse w_minmax_flat =
-    Ok (Some (Node w_pipe (Some (Node w_eq (Some (Node w_self None None)) (Some (Node w_one None None))))
-                          (Some (Node w_min None None)))) /\
-  parse w_minmax_flat <> Ok (Some (ttree w_minmax_term)) /\
-  render (pmin w_minmax_term) <> w_minmax_flat.
-Proof.
-  split; [vm_compute; reflexivity|]. split; [vm_compute; reflexivity|].
-  split; vm_compute; discriminate.
-Qed.
+  render (pmin w_minmax_term) = w_minmax_flat /\
+  parse w_minmax_flat = Ok (Some (ttree w_minmax_term)).
+Proof. repeat split; vm_compute; reflexivity. Qed.
 
 (* `1 - 2 - 3` and `2 * 3 + 1`: equal precedence nests to the right *)
 Lemma equal_precedence_nests_right :
